@@ -22,11 +22,11 @@ ENGINE = "PEX"
 TECHNIQUE = "bounded exhaustive enumeration of argument modes and values against a Python string model and the ISO error table"
 LEVEL_TEXT = ("input-space exploration: each builtin is a relation over a few arguments; all atoms of a small alphabet x "
               "all instantiation patterns x ill-typed values are executed and the full solution sequences compared")
-RULE = ("atoms {'',a,ab,abc,e-acute,a+e-acute,'a b','A','1',[]}; every parameter from correct values + {unbound, 1, 1.5, "
+RULE = ("atoms {'',a,ab,abc,e-acute,a+e-acute,'a b','A','1',[]} + 13 atoms containing NUL (start/middle/end, 1..7 bytes, next to a multi-byte char); every parameter from correct values + {unbound, 1, 1.5, "
         "f(x), [a|_], \"ab\", -1, 2^70}; atom_length (all pairs), atom_chars/atom_codes (both directions, partial and "
-        "ill-formed lists), char_code (both), atom_concat (7x7x9 patterns), sub_atom (every solution x 16 bound/unbound "
+        "ill-formed lists), char_code (both), atom_concat (11x11x16 patterns), sub_atom (every solution x 16 bound/unbound "
         "patterns + wrong and ill-typed values), char_type classification/case over 10 chars. Non-trivial: the atom is "
-        "non-ASCII or the mode enumerates.")
+        "non-ASCII or contains NUL, or the mode enumerates.")
 ASSUMPTIONS = ["Python str semantics on code points; str.upper/lower/isalpha follow the same Unicode tables as Rust's char methods "
                "for the 10 characters used",
                "where ISO lists several applicable error conditions any of them is accepted",
@@ -35,11 +35,15 @@ ASSUMPTIONS = ["Python str semantics on code points; str.upper/lower/isalpha fol
 MIN_OUTCOMES = 4
 
 BIG = 2 ** 70
-ATOMS = ["", "a", "ab", "abc", "é", "aé", "a b", "A", "1", "[]"]
+# NUL is an ordinary character of an atom: 2..7 bytes, NUL at the start / middle / end, next to a multi-byte
+# character, and one text of 7 bytes (beyond the 6-byte inline limit)
+NUL_ATOMS = ["\x00", "\x00a", "a\x00", "a\x00b", "ab\x00", "\x00ab", "a\x00bcd", "abcd\x00", "a\x00bcdef", "\u00e9\x00a", "a\x00\u00e9",
+             "\x00\x00", "a\x00\x00b"]
+ATOMS = ["", "a", "ab", "abc", "é", "aé", "a b", "A", "1", "[]"] + NUL_ATOMS
 
 
 def bound_text(tier):
-    return ("14 atoms (sub_atom up to length 5);" if tier == "thorough" else "10 atoms;") + " all listed argument patterns for 7 builtins (%d calls)" % sum(len(list(gen(s))) for s in shards(tier))
+    return ("27 atoms (13 with NUL; sub_atom up to length 7);" if tier == "thorough" else "23 atoms (13 with NUL);") + " all listed argument patterns for 7 builtins (%d calls)" % sum(len(list(gen(s))) for s in shards(tier))
 
 
 # ---------------------------------------------------------------------------
@@ -334,10 +338,13 @@ def uniq(xs):
     return out
 
 
+CONCAT_A1 = [V("X1"), "", "a", "ab", "é", 1, ("f", "x"), "\x00", "a\x00", "\x00a", "a\x00b"]
+
+
 def shards(tier):
     sh = [("atom_length",), ("atom_chars", 0), ("atom_chars", 1), ("atom_codes", 0), ("atom_codes", 1), ("char_code",),
           ("char_type",)]
-    for i in range(7):
+    for i in range(len(CONCAT_A1)):
         sh.append(("atom_concat", i))
     for a in ATOMS + (["abcd", "a\u00e9b\u20ac", "ab cd", "\U0001F600a\U0001F600"] if tier == "thorough" else []):
         sh.append(("sub_atom", a))
@@ -400,10 +407,10 @@ def gen(shard):
                     for w in uniq([c.upper(), c.lower(), "x", ""]):
                         yield "char_type", (c, (f, T.str_term(w)))
     elif k == "atom_concat":
-        vals = [V("X1"), "", "a", "ab", "é", 1, ("f", "x")]
-        A1 = vals[shard[1]]
-        for A2 in [V("X2"), "", "a", "b", "é", 1.5, ("f", "x")]:
-            for A12 in [V("X3"), "", "a", "ab", "abc", "aé", "éa", 1, ("f", "x")]:
+        A1 = CONCAT_A1[shard[1]]
+        for A2 in [V("X2"), "", "a", "b", "é", 1.5, ("f", "x"), "\x00", "\x00b", "b\x00", "\x00bcdef"]:
+            for A12 in [V("X3"), "", "a", "ab", "abc", "aé", "éa", 1, ("f", "x"), "\x00", "a\x00b", "\x00a", "ab\x00", "a\x00bcdef",
+                        "\u00e9\x00a", "a\x00\x00b"]:
                 yield "atom_concat", (A1, A2, A12)
     elif k == "sub_atom":
         At = shard[1]
@@ -520,7 +527,7 @@ def sig_of(pred, args, vk):
 
 
 def nontrivial(pred, args, exp):
-    if any(is_atom(a) and any(ord(c) > 127 for c in a) for a in args):
+    if any(is_atom(a) and any(ord(c) > 127 or c == "\x00" for c in a) for a in args):
         return True
     return exp.sols is not None and len(exp.sols) > 1
 
